@@ -52,6 +52,13 @@ func Unpack(buf []byte, dotu bool) (fc *Fcall, fcsz int, err error) {
 		goto szerror
 	}
 
+	// The fixed part of the body must be present whatever the dialect
+	// (minFcsize holds body sizes, the header is not included); the
+	// 9P2000.u additions are checked where they are read.
+	if fc.Size-7 < minFcsize[fc.Type-Tversion] {
+		goto szerror
+	}
+
 	err = nil
 	switch fc.Type {
 	default:
@@ -73,6 +80,10 @@ func Unpack(buf []byte, dotu bool) (fc *Fcall, fcsz int, err error) {
 
 		fc.Aname, p = gstr(p)
 		if p == nil {
+			goto szerror
+		}
+
+		if dotu && len(p) > 0 && len(p) < 4 {
 			goto szerror
 		}
 
@@ -105,6 +116,10 @@ func Unpack(buf []byte, dotu bool) (fc *Fcall, fcsz int, err error) {
 			goto szerror
 		}
 
+		if dotu && len(p) > 0 && len(p) < 4 {
+			goto szerror
+		}
+
 		if dotu {
 			if len(p) > 0 {
 				fc.Unamenum, p = gint32(p)
@@ -118,6 +133,9 @@ func Unpack(buf []byte, dotu bool) (fc *Fcall, fcsz int, err error) {
 		if p == nil {
 			goto szerror
 		}
+		if dotu && len(p) < 4 {
+			goto szerror
+		}
 		if dotu {
 			fc.Errornum, p = gint32(p)
 		} else {
@@ -128,6 +146,9 @@ func Unpack(buf []byte, dotu bool) (fc *Fcall, fcsz int, err error) {
 		fc.Fid, p = gint32(p)
 		fc.Newfid, p = gint32(p)
 		m, p = gint16(p)
+		if len(p) < 2*int(m) {
+			goto szerror
+		}
 		fc.Wname = make([]string, m)
 		for i := 0; i < int(m); i++ {
 			fc.Wname[i], p = gstr(p)
@@ -138,6 +159,9 @@ func Unpack(buf []byte, dotu bool) (fc *Fcall, fcsz int, err error) {
 
 	case Rwalk:
 		m, p = gint16(p)
+		if len(p) != 13*int(m) {
+			goto szerror
+		}
 		fc.Wqid = make([]Qid, m)
 		for i := 0; i < int(m); i++ {
 			p = gqid(p, &fc.Wqid[i])
@@ -155,6 +179,9 @@ func Unpack(buf []byte, dotu bool) (fc *Fcall, fcsz int, err error) {
 		fc.Fid, p = gint32(p)
 		fc.Name, p = gstr(p)
 		if p == nil {
+			goto szerror
+		}
+		if len(p) < 4+1 {
 			goto szerror
 		}
 		fc.Perm, p = gint32(p)
@@ -183,6 +210,9 @@ func Unpack(buf []byte, dotu bool) (fc *Fcall, fcsz int, err error) {
 		fc.Fid, p = gint32(p)
 		fc.Offset, p = gint64(p)
 		fc.Count, p = gint32(p)
+		if uint64(len(p)) != uint64(fc.Count) {
+			goto szerror
+		}
 		if len(p) != int(fc.Count) {
 			fc.Data = make([]byte, fc.Count)
 			copy(fc.Data, p)
@@ -209,6 +239,9 @@ func Unpack(buf []byte, dotu bool) (fc *Fcall, fcsz int, err error) {
 		fc.Fid, p = gint32(p)
 		_, p = gint16(p)
 		p, _ = gstat(p, &fc.Dir, dotu)
+		if p == nil {
+			goto szerror
+		}
 
 	case Rflush, Rclunk, Rremove, Rwstat:
 	}
